@@ -115,6 +115,13 @@ def h_extend(ctx, shape, opts, k):
     cells, order, ecs, data, crc = _mk(ctx, shape, opts)
     extra = ctx.bytes_('extra', k)
     ctx.require(_rejected(data + extra), 'extended input is rejected')
+    if opts.get('has_crc') or opts.get('magic') == 'idx_crc':
+        # an extension whose author recomputes the checksum: the bag followed by junk and the CRC-32C of all of it, and the junk
+        # inserted in front of a recomputed checksum
+        ext2 = data + extra
+        ctx.require(_rejected(ext2 + crc(ext2)), 'extended input with a recomputed checksum is rejected')
+        ext3 = data[:-4] + extra
+        ctx.require(_rejected(ext3 + crc(ext3)), 'input extended in front of a recomputed checksum is rejected')
     # and insertion in front of the checksum / in the middle never yields the original either
     ctx.observe('len', len(data))
 
